@@ -445,6 +445,7 @@ impl Check for C18 {
             pre.len(),
             corp.len()
         );
+        ctx.rule.push_str("; a position cited inside a message (`at [L:C]`) must be an earlier occurrence of the quoted name");
         // (A)
         let mut batch: Vec<Case> = vec![];
         let mut n_a = 0u64;
